@@ -110,7 +110,7 @@ ADDED4 = {
     "C04": ("", " Base images outside the target (0, size+1, usize::MAX) must give None; degree tuples that compensate each other across a power-of-two radix ((a+B, b) against (a, b+1), B = 2^8, 2^16, 2^32).", ""),
     "C05": ("", " Cover lists at sheet bounds 66-140 on symbols with small dihedral / cyclic groups (tables wider than a machine word); 1.5 million (thorough 20 million) subgroup covers from short, medium and long generating words on every spherical 2D symbol with <= 4 chambers.", ""),
     "C06": ("; iterator-contract oracle: the generator driven through nth / skip / step_by / take-in-chunks / last / fold / peekable must yield the items and numbers of the plain next() sequence, size_hint must bracket the truth, an exhausted generator stays exhausted", "", ""),
-    "C07": ("; iterator-contract oracle (as C06) on DSyms", " Flags of the 7- and 8-gonal prism (23 and 26 two-orbits; thorough 5..11-gonal): validity, numbering, irredundancy under the 4p automorphisms and the union clause without the reference enumeration.", ""),
+    "C07": ("; iterator-contract oracle (as C06) on DSyms", " Flags of the 7- and 8-gonal prism (23 and 26 two-orbits; thorough 5..8-gonal): validity, numbering, irredundancy under the 4p automorphisms and the union clause without the reference enumeration.", ""),
     "C10": ("; abandoned constructor calls (input iterator that panics half way, caught) interleaved on the worker threads between judged cases",
             " Conjugate-before-core histories: u c u^-1 queried before c, its rotations, its inverse and partial conjugates on the same thread.", ""),
     "C12": ("; iterator-contract oracle (as C06) on the table enumeration; abandoned enumerations between judged cases", "", ""),
